@@ -379,10 +379,17 @@ def spanish():
         return ens, asserts, l
 
     rows.append({"word": ",", "digits": "", "kind": "comma", "marker": None, "expect": None, "desc": "a comma is never a number word (it ends the number in progress)"})
+    rows.append({"word": "y", "digits": "", "kind": "link", "marker": None, "expect": None, "desc": "the conjunction: a link word once the number has two digits, not a number word otherwise"})
+    for w_, p_ in (("mil", 3), ("millón", 6), ("millon", 6), ("millones", 6)):
+        rows.append({"word": w_, "digits": "", "kind": "scale", "p": p_, "marker": None, "expect": "1" + "0" * p_, "desc": f"multiplies the last group by 10^{p_} (implicit one on an empty group)"})
 
     def row_stmt(r):
         if r["word"] == ",":
             return f"!es_model({W(',')}, o).ok && !(es_model({W(',')}, o).err is Incomplete)"
+        if r["kind"] == "link":
+            return f"(o.marker is None) ==> es_model({W(r['word'])}, o) == (if size_of(o) >= 2 {{ err_res(o, Error::Incomplete) }} else {{ err_res(o, Error::NaN) }})"
+        if r["kind"] == "scale":
+            return f"es_scale_row({r['p']}, o, es_model({W(r['word'])}, o))"
         want = 6 if r["kind"] == "f" else WANT[r["marker"]]
         unit_guarded = r["kind"] == "c" and len(r["digits"]) == 1 and r["digits"] != "0"
         needs_ord = lemma_of(r["word"]) == "segundo"   # "segundo" is also the time unit: only read as 2 inside an ordinal
@@ -393,6 +400,51 @@ def spanish():
     ARMS_CURRENT[:] = arms
     inner = emit_rows(c, rows, word_facts, row_stmt)
     emit_words(c, allwords, inner, arms)
+    # dispatch lemmas for the spelling driver: the row of a word chosen by its value
+    modof = {r["word"]: k % 8 for k, r in enumerate(rows)}
+    d = ["// generated by tools/gen_lang.py: words of the Spanish speller chosen by value, with their grammar rows (used by es_driver.inc)"]
+    small = {1: "uno", 2: "dos", 3: "tres", 4: "cuatro", 5: "cinco", 6: "seis", 7: "siete", 8: "ocho", 9: "nueve", 10: "diez", 11: "once", 12: "doce",
+             13: "trece", 14: "catorce", 15: "quince", 16: "dieciséis", 17: "diecisiete", 18: "dieciocho", 19: "diecinueve", 20: "veinte", 21: "veintiuno",
+             22: "veintidós", 23: "veintitrés", 24: "veinticuatro", 25: "veinticinco", 26: "veintiséis", 27: "veintisiete", 28: "veintiocho", 29: "veintinueve"}
+    tens_w = {3: "treinta", 4: "cuarenta", 5: "cincuenta", 6: "sesenta", 7: "setenta", 8: "ochenta", 9: "noventa"}
+    hund = {1: "ciento", 2: "doscientos", 3: "trescientos", 4: "cuatrocientos", 5: "quinientos", 6: "seiscientos", 7: "setecientos", 8: "ochocientos", 9: "novecientos"}
+    d.append("/// the one-word numbers 1..29; `apo`: the apocopated form before a noun or a scale word (un, veintiún)")
+    d.append("pub open spec fn es_small_w(r: int, apo: bool) -> Seq<char> { if r == 1 { if apo { " + W("un") + " } else { " + W("uno") + " } } else if r == 21 { if apo { " + W("veintiún") + " } else { " + W("veintiuno") + " } } else "
+             + " else ".join(f"if r == {k} {{ {W(w)} }}" for k, w in small.items() if k not in (1, 21, 29)) + " else { " + W(small[29]) + " } }")
+    d.append("pub open spec fn es_tens_w(t: int) -> Seq<char> { " + " else ".join(f"if t == {k} {{ {W(w)} }}" for k, w in tens_w.items() if k != 9) + " else { " + W(tens_w[9]) + " } }")
+    d.append("/// the hundreds words; `exact`: the number of the group is exactly 100 (cien)")
+    d.append("pub open spec fn es_hund_w(h: int, exact: bool) -> Seq<char> { if h == 1 { if exact { " + W("cien") + " } else { " + W("ciento") + " } } else "
+             + " else ".join(f"if h == {k} {{ {W(w)} }}" for k, w in hund.items() if k not in (1, 9)) + " else { " + W(hund[9]) + " } }")
+    d.append("pub open spec fn es_small_d(r: int) -> Seq<u8> { if r < 10 { d1((48 + r) as u8) } else { d2((48 + r / 10) as u8, (48 + r % 10) as u8) } }")
+    d.append("pub proof fn lemma_es_small(r: int, apo: bool, o: DsView)")
+    d.append("    requires 1 <= r <= 29")
+    d.append("    ensures es_row(es_small_d(r), 0, r < 10, false, o, es_model(es_small_w(r, apo), o))")
+    d.append("{")
+    d.append("    reveal(d1); reveal(d2);")
+    for k, w in small.items():
+        ws_ = [w] if k not in (1, 21) else ([w, "un"] if k == 1 else [w, "veintiún"])
+        d.append(f"    if r == {k} {{ " + " ".join(f"es_rows_{modof[x]}::lemma_es_row_{wname(x)}(o);" for x in ws_) + f" assert(es_small_d(r) =~= {digs(str(k))}); }}")
+    d.append("}")
+    d.append("pub proof fn lemma_es_tens(t: int, o: DsView)")
+    d.append("    requires 3 <= t <= 9")
+    d.append("    ensures es_row(d2((48 + t) as u8, 48u8), 0, false, false, o, es_model(es_tens_w(t), o))")
+    d.append("{")
+    for k, w in tens_w.items():
+        d.append(f"    if t == {k} {{ es_rows_{modof[w]}::lemma_es_row_{wname(w)}(o); }}")
+    d.append("}")
+    d.append("pub proof fn lemma_es_hund(h: int, exact: bool, o: DsView)")
+    d.append("    requires 1 <= h <= 9")
+    d.append("    ensures es_row(d3((48 + h) as u8, 48u8, 48u8), 0, false, false, o, es_model(es_hund_w(h, exact), o))")
+    d.append("{")
+    for k, w in hund.items():
+        ws_ = [w] if k != 1 else [w, "cien"]
+        d.append(f"    if h == {k} {{ " + " ".join(f"es_rows_{modof[x]}::lemma_es_row_{wname(x)}(o);" for x in ws_) + " }")
+    d.append("}")
+    d.append(f"pub proof fn lemma_es_y(o: DsView) requires o.marker is None ensures es_model({W('y')}, o) == (if size_of(o) >= 2 {{ err_res(o, Error::Incomplete) }} else {{ err_res(o, Error::NaN) }}) {{ es_rows_{modof['y']}::lemma_es_row_y(o); }}")
+    d.append(f"pub proof fn lemma_es_mil(o: DsView) ensures es_scale_row(3, o, es_model({W('mil')}, o)) {{ es_rows_{modof['mil']}::lemma_es_row_mil(o); }}")
+    d.append(f"pub proof fn lemma_es_millon(o: DsView) ensures es_scale_row(6, o, es_model({W('millón')}, o)), es_scale_row(6, o, es_model({W('millones')}, o)) {{ es_rows_{modof['millón']}::lemma_es_row_{wname('millón')}(o); es_rows_{modof['millones']}::lemma_es_row_millones(o); }}")
+    d.append(f"pub proof fn lemma_es_cero(o: DsView) ensures es_row(d1(48u8), 0, false, false, o, es_model({W('cero')}, o)) {{ es_rows_{modof['cero']}::lemma_es_row_cero(o); }}")
+    open(os.path.join(T, "es_dispatch.inc"), "w", encoding="utf-8").write("\n".join(d) + "\n")
     for r in rows:
         if lemma_of(r["word"]) == "segundo":
             r["expect"] = None   # not a number on its own (time unit "segundo")
